@@ -157,7 +157,7 @@ def gen_scenario(rng, kind):
         r[d] = (L[d] if hi else F(0)) - dt * v[d]
     elif kind == 'graze':
         d = rng.choice(walls); hi = rng.random() < 0.5
-        dist = rng.choice([F(1, 2 ** 20), F(1, 2 ** 30), F(1, 2 ** 40), EPS])
+        dist = rng.choice([F(1, 2 ** 8), F(1, 2 ** 12), F(1, 2 ** 16), F(1, 2 ** 20), F(1, 2 ** 24), F(1, 2 ** 30)])
         r[d] = side_pos(d, hi, dist)
         for k in range(3):
             v[k] = cap(pm2k(rng, 0, 3), k) if k != d else F(0)
@@ -360,9 +360,15 @@ def oracle(gs, dump, rc, out, err):
     elif rc != 0 and not forcefree and err != 'flewtoofar':
         fails.append(('abort-with-force', 'run aborted (%s)' % err))
     prev = None
+    edge = False
     for step, free in states:
+        if prev:
+            edge = edge or (forcefree and edge_in_step(gs, prev[0]))
+        nf = len(fails)
         if len(free) != n0 and (slow or not forcefree):
             fails.append(('particle-lost', 'step %d: %d free particles, %d at the start' % (step, len(free), n0)))
+            if edge:
+                fails[nf:] = [('C08-edge-hit-lost/' + sig, text) for sig, text in fails[nf:]]
             break
         for p in free:
             for d in range(3):
@@ -403,21 +409,28 @@ def oracle(gs, dump, rc, out, err):
                         fails.append(('mirror-law', 'step %d dir %d: v %s -> %s, expected %s' % (step, d, p0['v'][d], p1['v'][d], want_v)))
                     elif not okr:
                         fails.append(('mirror-law', 'step %d dir %d: r %.17g, expected %.17g' % (step, d, float(p1['r'][d]), float(want_r))))
+        if edge:
+            fails[nf:] = [('C08-edge-hit-lost/' + sig, text) for sig, text in fails[nf:]]
         prev = free
     return fails, obs
 
 
-def edge_hit(gs, model):
-    """does the scenario contain an exact simultaneous hit of two walls (the known failure mode)?  decided on the
-    unreflected straight path of the first step that reaches a wall: two non-periodic directions reach their wall at the
-    same time"""
-    r, v, dt = gs['r'], gs['v'], gs['dt']
+def edge_in_step(gs, p):
+    """independent detection of the known failure mode from a dumped state: within the coming step two wall planes
+    (non-periodic directions) are reached at exactly the same time on the unreflected path (for `ReflectorMirror` the first
+    crossing time of a direction does not depend on reflections in other directions), or the particle already lies exactly
+    in a wall plane (what an exact edge hit leaves behind)"""
     ts = []
     for d in range(3):
-        if gs['per'][d] or v[d] == 0:
+        if gs['per'][d]:
             continue
-        t = (gs['box'][d] - r[d]) / v[d] if v[d] > 0 else -r[d] / v[d]
-        if 0 < t <= dt * gs['steps']:
+        x, v = p['r'][d], p['v'][d]
+        if x == 0 or x == gs['box'][d]:
+            return True
+        if v == 0:
+            continue
+        t = (gs['box'][d] - x) / v if v > 0 else -x / v
+        if 0 < t <= gs['dt']:
             ts.append(t)
     return len(ts) != len(set(ts))
 
@@ -449,7 +462,15 @@ def main(argv):
         if os.path.exists(d):
             shutil.rmtree(d)
         symlib.write_case(d, to_symlib(gs))
-        rc, out = symlib.run_sympler(d, binary)
+        for attempt in range(30):           # the hooked binary may be re-linked by a concurrent check
+            try:
+                rc, out = symlib.run_sympler(d, binary)
+                break
+            except (PermissionError, OSError):
+                import time
+                time.sleep(2)
+        else:
+            raise RuntimeError('cannot execute ' + binary)
         try:
             dump = symlib.parse_obs(os.path.join(d, 'obs.txt'))
         except Exception:
@@ -458,6 +479,14 @@ def main(argv):
         pc = ''.join('p' if p else 'w' for p in gs['per'])
         summ['periodic_combos'][pc] = summ['periodic_combos'].get(pc, 0) + 1
         summ['reflectors'][gs['refl']] = summ['reflectors'].get(gs['refl'], 0) + 1
+        if rc != 0 and 'no free particles found' in out:
+            # the particle creator refuses particles (nearly) on a wall: not part of C08
+            summ['setup_rejected'] = summ.get('setup_rejected', 0) + 1
+            summ.setdefault('setup_rejected_min_wall_distance', []).append(
+                str(min(min(gs['r'][d], gs['box'][d] - gs['r'][d]) for d in range(3) if not gs['per'][d])))
+            if not keep:
+                shutil.rmtree(d, ignore_errors=True)
+            continue
         real, err = real_outcome(rc, out, dump, gs['steps'])
         desc = dict(id=gs['id'], kind=gs['kind'], box=[str(x) for x in gs['box']], ncell=gs['ncell'], cutoff=str(gs['rc']),
                     periodic=gs['per'], reflector=gs['refl'], r=[str(x) for x in gs['r']], v=[str(x) for x in gs['v']],
@@ -493,8 +522,6 @@ def main(argv):
             if sig in seen:
                 continue
             seen.add(sig)
-            if edge_hit(gs, None) and gs['refl'] == 'mirror' and sig in ('particle-lost', 'mirror-law', 'outside-wall'):
-                sig = 'C08-edge-hit-lost/' + sig
             summ['oracle_failures'].append(dict(desc, signature=sig, what=text))
         for o in obs:
             summ['observations'].append(dict(desc, what=o))
